@@ -4,6 +4,7 @@ import (
 	"context"
 	"errors"
 	"fmt"
+	"strings"
 	"sync"
 	"sync/atomic"
 
@@ -386,6 +387,10 @@ func (h *Handle) Open(ctx context.Context, mode p9p.Flag) (p9p.File, error) {
 	out := OpenOutcome(h.Node)
 	if c.Fault == FaultErr || out == Err {
 		c.Failed = true
+		if strings.HasPrefix(h.Node.Name, "ofailf") {
+			// an error together with a (half-built) non-nil File: the error decides
+			return &HFile{h}, fmt.Errorf("open %s: %w", h.Node.Path(), ErrInjectedFS)
+		}
 		return nil, fmt.Errorf("open %s: %w", h.Node.Path(), ErrInjectedFS)
 	}
 	if c.Fault == FaultNil || out == Nil {
